@@ -20,6 +20,7 @@ static int vt_should_fail(const char *kind, const char *func, int line, int tu)
 	vt_requests++;
 	if (vt_fail_at && vt_requests == vt_fail_at) {
 		snprintf(vt_fail_site, sizeof(vt_fail_site), "%s/%s@%d", func, kind, line);
+		dprintf(2, "VT-FAILSITE %s\n", vt_fail_site);
 		errno = ENOMEM;
 		return 1;
 	}
